@@ -1371,8 +1371,7 @@ def assert_is_valid_ansi_type(ansi_type):
 
 
 def write_create(cid_path, cid_reader):
-    # TODO: Add option for different cid types.
-    cid_reader.read(cid_path, rowio.excel_rows(cid_path))
+    cid_reader.read(cid_path, rowio.auto_rows(cid_path))
 
     create_path = os.path.splitext(cid_path)[0] + "_create.sql"
     # TODO: Add option to specify target folder for SQL files.
